@@ -28,3 +28,5 @@ pub assume_specification<T, E> [Option::<Result<T, E>>::transpose] (o: Option<Re
     ensures o is None ==> r == Ok::<Option<T>, E>(None),
             o is Some && o->Some_0 is Ok ==> r == Ok::<Option<T>, E>(Some(o->Some_0->Ok_0)),
             o is Some && o->Some_0 is Err ==> r is Err;
+
+macro_rules! clone_eq { ($($n:ident),* $(,)?) => { verus!{ $( impl Clone for $n { #[verifier::external_body] fn clone(&self) -> (r: Self) ensures r == *self { unimplemented!() } } )* } } }
